@@ -28,13 +28,16 @@ type Probe struct {
 
 // ChildCase is the input of one vchild run.
 type ChildCase struct {
-	Policy          PolicySpec `json:"policy"`
-	ForceArch       string     `json:"force_arch,omitempty"`
-	Flags           uint32     `json:"flags"`
-	NNP             bool       `json:"nnp"`
-	Probes          []Probe    `json:"probes"`
-	KillThreadProbe bool       `json:"kill_thread_probe,omitempty"`
-	Unprivileged    bool       `json:"unprivileged,omitempty"`
+	Policy    PolicySpec `json:"policy"`
+	ForceArch string     `json:"force_arch,omitempty"`
+	Flags     uint32     `json:"flags"`
+	// FlagNames, when set, makes the child build Filter.Flag from the package's
+	// named constants ("tsync", "log") instead of the numeric word.
+	FlagNames       []string `json:"flag_names,omitempty"`
+	NNP             bool     `json:"nnp"`
+	Probes          []Probe  `json:"probes"`
+	KillThreadProbe bool     `json:"kill_thread_probe,omitempty"`
+	Unprivileged    bool     `json:"unprivileged,omitempty"`
 
 	// Raw: rawload mode hands this program (code, jt, jf, k) to seccomp(2) directly.
 	Raw [][4]uint32 `json:"raw,omitempty"`
